@@ -128,6 +128,8 @@ class Engine:
         self.solver = None
         self.worklist = []
         self.path_log = []
+        self.forced_template = {}
+        self.forced_choices = {}
 
     # ---- fresh symbols (deterministic names per path position) -------------------------------------
     def fresh(self, base, sort):
@@ -146,6 +148,7 @@ class Engine:
             self.hyps = []
             self.fresh_ctr = 0
             self.path_log = []
+            self.forced_choices = {k: list(v) for k, v in self.forced_template.items()}
             self.solver = z3.Solver()
             self.solver.set("rlimit", self.rlimit)
             self.paths += 1
@@ -216,6 +219,12 @@ class Engine:
         """Nondeterministic choice among n alternatives (concrete fork, e.g. iteration orders)."""
         if n <= 1:
             return 0
+        forced = self.forced_choices.get(tag)
+        if forced:
+            i = forced.pop(0)
+            if tag:
+                self.path_log.append(f"{tag}={i}")
+            return i
         # encode as ceil(log2 n) free boolean decisions; simpler: sequential yes/no
         for i in range(n - 1):
             k = len(self.decisions)
